@@ -48,7 +48,7 @@ DESIGN_REF = "§5 C20"
 RULE = ("case = (store access path, state kind, <=6 tasks with <=6 operations in total, virtual delays); distinct = hash of the "
         "case spec; non-trivial = at least one operation was issued while another task's edit_state block was open")
 REQUIRED_REACH = ["final_state_oracle", "serial_orders_evaluated", "op_issued_during_open_block",
-                  "cases_memory_shared", "cases_sqlite_shared", "cases_sqlite_per_task", "seeded_store_object", "edit_blocks_run",
+                  "cases_memory_shared", "cases_sqlite_shared", "cases_sqlite_per_task", "cases_sqlite1_per_task", "cases_sqlite1_shared", "seeded_store_object", "edit_blocks_run",
                   "set_state_run", "set_run", "clear_run",
                   "workflow_cases_plain", "workflow_cases_server_memory", "workflow_cases_server_sqlite",
                   "workflow_final_state_oracle", "workflow_step_contended"]
@@ -56,7 +56,7 @@ ASSUMPTIONS = ["operations are the public StateStore methods; user-level get-the
                "SQLite file opened with per-call connections (the default server configuration) plus one idle connection"]
 SHARD_TIMEOUT = {"quick": 300, "thorough": 1800}
 
-PATHS = [("memory", "shared"), ("sqlite", "shared"), ("sqlite", "per_task")]
+PATHS = [("memory", "shared"), ("sqlite", "shared"), ("sqlite", "per_task"), ("sqlite1", "per_task"), ("sqlite1", "shared")]   # sqlite1: SqliteWorkflowStore(single_connection=True)
 DELAYS = [0, 0, 0.1, 0.2, 0.3, 0.5]
 HOLDS = [0, 0.1, 0.25, 0.4, 0.6]
 
@@ -186,6 +186,7 @@ class Env:
         self.dir = boot.scratch_dir()
         path = os.path.join(self.dir, "c20.db")
         self.ws = SqliteWorkflowStore(path)
+        self.ws1 = SqliteWorkflowStore(os.path.join(self.dir, "c20_single.db"), single_connection=True)
         # idle second connection: keeps the WAL from being checkpointed+unlinked on every close (cost only)
         self.keeper = sqlite3.connect(path)
         self.keeper.execute("SELECT count(*) FROM workflow_state").fetchall()
@@ -215,6 +216,8 @@ def run_case(case, env, acc):
     run_id = f"run-{env.counter}"
     st = Child if typed else None
 
+    ws = env.ws1 if backend == "sqlite1" else env.ws
+
     def new_store(seeded=False):
         if backend == "memory":
             return InMemoryStateStore(Child() if typed else DictState())
@@ -226,8 +229,8 @@ def run_case(case, env, acc):
             ser = JsonSerializer()
             payload = InMemoryStateStore(Child() if typed else DictState()).to_dict(ser)
             acc.hit("seeded_store_object")
-            return env.ws.create_state_store(run_id, st, payload, ser)
-        return env.ws.create_state_store(run_id, st)
+            return ws.create_state_store(run_id, st, payload, ser)
+        return ws.create_state_store(run_id, st)
 
     shared = new_store() if objects == "shared" else None
     ops = {o["id"]: o for o in case["ops"]}
